@@ -29,7 +29,7 @@ func init() {
 func init() {
 	props["C18"] = propSpec{
 		level: "exploration",
-		rule: "(a) seeded scripts of 1-35 operations over two Sets (ordered/unordered; after a sort of one of them also mixed, incl. Extend from an ordered source into an unordered set, synchronized or not, value domain 6-8 to force collisions, delete-then-re-add, delete-absent) " +
+		rule: "(a) seeded scripts of 1-35 operations over two Sets (ordered/unordered, a third of the unordered ones built by NewSetFromSlice; after a sort of one of them also mixed, incl. Extend from an ordered source into an unordered set, synchronized or not, value domain 6-8 to force collisions, delete-then-re-add, delete-absent) " +
 			"checked in lock-step against a map+order-slice model after every operation (Len, Check over the domain, iterator multiset/order, AddCheck/DeleteCheck results, Equal, JSON round trip, Sort*); " +
 			"(b) concurrent histories of a synchronized set (2-4 clients x 3-8 ops over 1-3 keys, GOMAXPROCS 1/2/4/16) recorded at the client boundary and checked with porcupine against the set model " +
 			"(partitioned by key; unpartitioned when Len is in the history). distinct_nontrivial = distinct (orderedness, synchronized, set of >=3 operation kinds) for scripts plus distinct (config) of histories with >=2 overlapping operation pairs",
